@@ -23,6 +23,33 @@ def undo_push(c):
     if len(args) < 3: return None
     return (U.enum_const_name(args[0]), A.text(A.strip(args[1], casts=True)), A.text(A.strip(args[2], casts=True)), args[2])
 
+def r15_5(chk, fn, g, muts):
+    """definite_path(target, location) resolves '-' against the array as it is now: the first mutation after it must be the insertion at that path."""
+    mut_nodes = {id(nd): (nd, c) for nd, c in muts}
+    k = 0
+    for nd in g.rpo:
+        if nd.kind != 'stmt' or not isinstance(nd.ast, dict) or nd.ast.get('k') != 'DeclStmt': continue
+        for d in nd.ast.get('decls') or []:
+            if d.get('init') is None or not any(A.callee_name(c) == 'definite_path' for c in A.calls_in(d['init'])): continue
+            k += 1
+            name = d.get('n'); vid = d.get('id')
+            # first mutations reachable from the definition
+            seen = set(); stack = list(nd.succ); first = []
+            while stack:
+                x = stack.pop()
+                if x.id in seen: continue
+                seen.add(x.id)
+                if id(x) in mut_nodes: first.append(mut_nodes[id(x)]); continue
+                stack.extend(x.succ)
+            site = U.site(fn, 'definite_path#%d' % k)
+            bad = [(mn, mc) for mn, mc in first if not any(y.get('k') == 'DeclRefExpr' and y.get('id') == vid for a in mc.get('args') or [] for y in A.walk(a))]
+            if first and not bad: chk.ok('R15.5', site, {'line': nd.line, 'first_mutation_lines': sorted(mn.line for mn, mc in first)})
+            elif not first: chk.fail('R15.5', site, fn['file'], nd.line, 'the path computed by definite_path at line %s is never used by a mutation' % nd.line, None, fn['q'])
+            else:
+                chk.fail('R15.5', site, fn['file'], nd.line, 'definite_path(target, ...) is evaluated at line %s but the target is modified by %s at line %s before `%s` is used: "-" is resolved against an array that no longer has that size' % (
+                    nd.line, A.callee_name(bad[0][1]), bad[0][0].line, name), {'definition': nd.line, 'intervening_mutation': bad[0][0].line}, fn['q'])
+    chk.require(k >= 3, 'R15.5: only %d definite_path definitions found in apply_patch' % k)
+
 def run(chk, tier, only_rule=None):
     chk.explanation = EXPLANATION
     chk.not_decided = NOT_DECIDED
@@ -32,6 +59,8 @@ def run(chk, tier, only_rule=None):
                       'next operation or a successful return', floor=6)
     chk.rule('R15.2', 'commit discipline: state commit is assigned only after the operation loop; error returns inside the loop mark abort', floor=10)
     chk.rule('R15.3', 'total dispatch: the final alternative of the op chain stores an error and returns', floor=1)
+    chk.rule('R15.5', 'definite_path freshness: the concrete path of an insertion ("-" resolved to the current size) is computed in the state the '
+                      'insertion sees: no other mutation of the target lies between definite_path() and the first mutation that uses its result', floor=3)
     chk.rule('R15.4', 'the unwinder replays the log in reverse and has a branch for every op_type calling the matching jsonpointer function', floor=3)
     fns = [f for f in facts.functions if f['n'] == 'apply_patch' and not f.get('dep') and f.get('body') is not None and len(f['params']) == 3]
     chk.require(fns, 'jsonpatch::apply_patch(target, patch, ec) not found')
@@ -50,6 +79,7 @@ def run(chk, tier, only_rule=None):
         chk.require(loop_conds, 'apply_patch: operation loop not found')
         loop = loop_conds[0]
         returns = [nd for nd in g.rpo if nd.kind == 'return']
+        r15_5(chk, fn, g, muts)
         for i, (mn, mc) in enumerate(muts):
             kind = A.callee_name(mc)
             inv = MUT[kind]
@@ -166,3 +196,8 @@ def run(chk, tier, only_rule=None):
         site = U.site(fn, 'reverse order')
         if rev: chk.ok('R15.4', site, {'iteration': 'rbegin..rend'})
         else: chk.fail('R15.4', site, fn['file'], fn['l'], 'the undo log is not replayed in reverse order', None, fn['q'])
+    # apply_patch works through the jsonpointer operations: their exact bounds (add at index == size appends) and error-before-mutation
+    # discipline are part of the patch semantics and of its atomicity
+    from . import c14
+    c14.r14_4(chk, facts)
+    c14.r14_5(chk, facts)
